@@ -229,9 +229,13 @@ def run(tier, seed, replay=None):
                         found.append(raw)
             out.extra["search_after_broken_tie"] = {"candidates": len(cand), "scanned_differently": len(found)}
             diffs["scan_raw(search)"] = found[:400]
+            # comment introducers the two sides disagree about (a "#" glued to something): the two-comment construction - the
+            # first comment hides a ")", the second a "$(" that re-balances the count - makes such a disagreement executable
+            intro = sorted({d[max(0, d.index("#") - 1):d.index("#") + 1] for ds in diffs.values() for d in ds if "#" in d} | {";#", "(#", "&#", "|#", "a#", " #"})
+            diffs["comment-construction"] = [f"$(echo hi{c} )\nrm x{c} $(echo\n)" for c in intro] + [f"`echo hi{c} \\`\nrm x{c} `echo\n`" for c in intro]
         for name, strs in diffs.items():
             for raw in strs:
-                body = raw.replace("a", "rm x")
+                body = raw if name == "comment-construction" else raw.replace("a", "rm x")
                 for tmpl in ("echo {R}", 'echo "{R}"', "cat <<EOF\n{R}\nEOF", "echo ${v:-{R}}", "(( {R} ))", "[[ a == {R} ]]"):
                     text = tmpl.replace("{R}", body)
                     try:
